@@ -25,7 +25,7 @@ import (
 // ---------------------------------------------------------------------------
 
 func RReleaseOwn(c *core.Ctx) {
-	c.Rule("R-RELEASEOWN", "every call of Regexp.putRunner (deferred or not) releases a runner that the same function obtained from getRunner: a runner received as a parameter, read from a field or returned by anything else is never put back by the receiver of it", 3)
+	c.Rule("R-RELEASEOWN", "every pooled runner is released exactly once, by the function that took it: each call of Regexp.putRunner (deferred or not) is applied to a value obtained from getRunner in the same function; a helper that releases a runner it was handed is allowed only if every caller passes it a runner it took itself and has no other release of its own", 3)
 	p := c.P
 	put := p.SSAFunc(p.LookupFunc("", "Regexp.putRunner"))
 	get := p.SSAFunc(p.LookupFunc("", "Regexp.getRunner"))
@@ -33,71 +33,129 @@ func RReleaseOwn(c *core.Ctx) {
 		c.Anchor("Regexp.putRunner / Regexp.getRunner")
 		return
 	}
+	var origin func(v ssa.Value, d int) bool
+	origin = func(v ssa.Value, d int) bool {
+		if d > 4 {
+			return false
+		}
+		switch x := v.(type) {
+		case *ssa.Call:
+			return x.Call.StaticCallee() == get
+		case *ssa.Phi:
+			for _, e := range x.Edges {
+				if !origin(e, d+1) {
+					return false
+				}
+			}
+			return len(x.Edges) > 0
+		case *ssa.UnOp:
+			// a local spilled because a closure / defer captures it
+			if al, ok := x.X.(*ssa.Alloc); ok {
+				okAll, any := true, false
+				for _, r := range core.Referrers(al) {
+					if st, ok := r.(*ssa.Store); ok && st.Addr == ssa.Value(al) {
+						any = true
+						if !origin(st.Val, d+1) {
+							okAll = false
+						}
+					}
+				}
+				return any && okAll
+			}
+			if _, ok := x.X.(*ssa.FreeVar); ok {
+				return true // a deferred closure of the acquiring function
+			}
+		}
+		return false
+	}
+	commons := func(fn *ssa.Function) []*ssa.CallCommon {
+		var out []*ssa.CallCommon
+		for _, b := range fn.Blocks {
+			for _, ins := range b.Instrs {
+				switch x := ins.(type) {
+				case *ssa.Call:
+					out = append(out, &x.Call)
+				case *ssa.Defer:
+					out = append(out, &x.Call)
+				case *ssa.Go:
+					out = append(out, &x.Call)
+				}
+			}
+		}
+		return out
+	}
+	// release helpers: functions that put back one of their own parameters -> index of it
+	helpers := map[*ssa.Function]int{}
+	for _, fn := range p.ModuleFuncs() {
+		for _, cm := range commons(fn) {
+			if cm.StaticCallee() != put || len(cm.Args) < 2 {
+				continue
+			}
+			if prm, ok := cm.Args[1].(*ssa.Parameter); ok {
+				for i, q := range fn.Params {
+					if q == prm {
+						helpers[fn] = i
+					}
+				}
+			}
+		}
+	}
+	// the release sites of a function: putRunner / helper calls on a runner it took
+	releases := func(fn *ssa.Function) int {
+		k := 0
+		for _, cm := range commons(fn) {
+			cal := cm.StaticCallee()
+			if cal == put && len(cm.Args) >= 2 && origin(cm.Args[1], 0) {
+				k++
+			}
+			if idx, ok := helpers[cal]; ok && idx < len(cm.Args) && origin(cm.Args[idx], 0) {
+				k++
+			}
+		}
+		return k
+	}
 	n := 0
 	for _, fn := range p.ModuleFuncs() {
 		name := core.SSAName(fn)
 		ord := 0
-		check := func(common *ssa.CallCommon, pos token.Pos) {
-			if common.StaticCallee() != put || len(common.Args) < 2 {
-				return
+		for _, cm := range commons(fn) {
+			if cm.StaticCallee() != put || len(cm.Args) < 2 {
+				continue
 			}
 			n++
 			ord++
 			c.Visit(name)
 			key := fmt.Sprintf("%s / release #%d is of a runner taken here", name, ord)
-			var origin func(v ssa.Value, d int) bool
-			origin = func(v ssa.Value, d int) bool {
-				if d > 4 {
-					return false
-				}
-				switch x := v.(type) {
-				case *ssa.Call:
-					return x.Call.StaticCallee() == get
-				case *ssa.Phi:
-					for _, e := range x.Edges {
-						if !origin(e, d+1) {
-							return false
+			pos := cm.Pos()
+			if origin(cm.Args[1], 0) {
+				c.Check(releases(fn) == 1, key, pos, "the runner comes from getRunner in this function, which releases it %d times (putRunner and release helpers together): after the second release the pool holds the same runner twice and two overlapping calls share one interpreter state", releases(fn))
+				continue
+			}
+			if idx, isHelper := helpers[fn]; isHelper {
+				// every caller hands over a runner it took and releases nothing else
+				bad := ""
+				callers := 0
+				if node := p.CallGraph().Nodes[fn]; node != nil {
+					for _, e := range node.In {
+						if e.Caller == nil || e.Caller.Func == nil || e.Site == nil {
+							continue
+						}
+						callers++
+						args := e.Site.Common().Args
+						if idx >= len(args) || !origin(args[idx], 0) {
+							bad = core.SSAName(e.Caller.Func) + " passes a runner it did not take"
+						} else if k := releases(e.Caller.Func); k != 1 {
+							bad = fmt.Sprintf("%s releases the runner %d times (its own putRunner and this helper)", core.SSAName(e.Caller.Func), k)
 						}
 					}
-					return len(x.Edges) > 0
-				case *ssa.UnOp:
-					// a local spilled because a closure / defer captures it
-					if al, ok := x.X.(*ssa.Alloc); ok {
-						okAll, any := true, false
-						for _, r := range core.Referrers(al) {
-							if st, ok := r.(*ssa.Store); ok && st.Addr == ssa.Value(al) {
-								any = true
-								if !origin(st.Val, d+1) {
-									okAll = false
-								}
-							}
-						}
-						return any && okAll
-					}
-					if fv, ok := x.X.(*ssa.FreeVar); ok {
-						_ = fv
-						return true // a deferred closure of the acquiring function (its parent is checked by the store rule below)
-					}
 				}
-				return false
-			}
-			if origin(common.Args[1], 0) {
-				c.OK(key, pos, "the runner comes from getRunner in this function")
-			} else {
-				c.Bad(key, pos, "the runner released here was not taken by this function (a parameter / field): the function that did take it releases it as well (deferred putRunner), so after an aborted scan the pool holds the same runner twice and two overlapping calls share one interpreter state")
-			}
-		}
-		for _, b := range fn.Blocks {
-			for _, ins := range b.Instrs {
-				switch x := ins.(type) {
-				case *ssa.Call:
-					check(&x.Call, x.Pos())
-				case *ssa.Defer:
-					check(&x.Call, x.Pos())
-				case *ssa.Go:
-					check(&x.Call, x.Pos())
+				if callers == 0 {
+					bad = "no caller found"
 				}
+				c.Check(bad == "", key, pos, "a runner received as a parameter is put back here, and %s: after an aborted scan the pool holds the same runner twice and two overlapping calls share one interpreter state", bad)
+				continue
 			}
+			c.Bad(key, pos, "the runner released here was neither taken by this function nor handed to it as a parameter (a field / a result of something else)")
 		}
 	}
 	if n == 0 {
@@ -473,12 +531,30 @@ func RSameHay(c *core.Ctx) {
 		}
 		// haystacks: first arguments of calls in the loop that take (string, string)
 		hay := map[types.Object]bool{}
+		var needle types.Object
+		if id, ok := rg.Value.(*ast.Ident); ok {
+			needle = info.ObjectOf(id)
+		}
 		ast.Inspect(rg.Body, func(y ast.Node) bool {
 			call, ok := y.(*ast.CallExpr)
-			if !ok || len(call.Args) != 2 {
+			if !ok || len(call.Args) < 2 || needle == nil {
 				return true
 			}
-			if id, ok := ast.Unparen(call.Args[0]).(*ast.Ident); ok {
+			// a search call: it is given the loop's element (the needle) and a string declared outside the loop
+			takesNeedle := false
+			for _, a := range call.Args {
+				if id, ok := ast.Unparen(a).(*ast.Ident); ok && info.ObjectOf(id) == needle {
+					takesNeedle = true
+				}
+			}
+			if !takesNeedle {
+				return true
+			}
+			for _, a := range call.Args {
+				id, ok := ast.Unparen(a).(*ast.Ident)
+				if !ok || info.ObjectOf(id) == needle {
+					continue
+				}
 				if b, ok := info.TypeOf(id).Underlying().(*types.Basic); ok && b.Info()&types.IsString != 0 {
 					if o := info.ObjectOf(id); o != nil && !(rg.Pos() <= o.Pos() && o.Pos() < rg.End()) {
 						hay[o] = true
